@@ -151,6 +151,26 @@ pub fn replay(args: &[String]) -> i32 {
             bad += 1;
             out.line(&json!({"kind": "mismatch", "case": case, "observed": observed}));
         }
+        // discarding more than there is reports the counts and removes nothing, however many are asked for
+        if case["op"]["name"] == "discard" && u(&case["op"]["n"]) as usize > vals.len() {
+            for far in [usize::MAX, usize::MAX - 1, 1usize << 63, 1 << 32] {
+                n += 1;
+                let observed = guarded(|| {
+                    let mut st = build(&vals, max);
+                    let r = st.discard(far);
+                    let payload_ok = matches!(r, Err(StackError::Underflow { num_requested, num_present }) if num_requested == far && num_present == vals.len());
+                    json!({"payload_ok": payload_ok, "vals": contents(&st)})
+                })
+                .unwrap_or_else(|m| json!({"panic": m}));
+                if observed["payload_ok"] != true || observed["vals"] != case["vals"] {
+                    bad += 1;
+                    let mut c2 = case.clone();
+                    c2["huge"] = json!({"discard": far.to_string()});
+                    out.line(&json!({"kind": "mismatch", "case": c2, "observed": observed}));
+                    break;
+                }
+            }
+        }
         // A bulk insertion that does not fit is refused whatever the magnitudes: the same case with
         // the maximum at the top of usize and an exact-size iterator whose announced length exceeds
         // the room by the same amount (n + k - m); only Overflow with untouched contents is allowed.
